@@ -99,9 +99,12 @@ def gen_case(prop: str, seed: int, tier: str, index: int, classes: List[str]) ->
     cfg = {"class": cls, "net": {"lat_min": 0.001, "lat_max": 0.004}, "loop": loop_cfg, "tables": tables, "end": round(end + 5, 3),
            "snapshot": snaps[rng.randrange(len(snaps))].split("/")[-1],
            "suspend_p": rng.choice([0.0, 0.0, 0.1, 0.3]), "suspend_max": rng.choice([0.3, 1.0, 3.0])}
+    # tuning knobs (class constants of GeckoConstants), randomised per run so that nothing silently depends on the shipped value:
+    # the pause between handshake steps (shipped 0: a non-zero pause widens every window inside the handshake) ...
+    cfg["consts"] = {"CONNECTION_STEP_PAUSE_IN_SECONDS": rng.choice([0, 0, 0, 0.3, 1.0])}
     if cls in ("rferr", "mixed"):
-        # tuning knob: how many RF errors one connection tolerates before ERROR_TOO_MANY_RF_ERRORS (shipped: 50)
-        cfg["consts"] = {"MAX_RF_ERRORS_BEFORE_HALT": rng.choice([1, 4, 12, 50])}
+        # ... and how many RF errors one connection tolerates before ERROR_TOO_MANY_RF_ERRORS (shipped: 50)
+        cfg["consts"]["MAX_RF_ERRORS_BEFORE_HALT"] = rng.choice([1, 4, 12, 50])
     return {"property": prop, "world": "A", "seed": seed, "cfg": cfg, "plan": plan}
 
 
@@ -141,14 +144,14 @@ def pump_phases(deliveries, until: float):
     return out
 
 
-def recovery_bound(tables: Dict[str, Dict[str, float]]) -> float:
+def recovery_bound(tables: Dict[str, Dict[str, float]], step_pause: float = 0.0) -> float:
     T = table_max(tables, "PROTOCOL_TIMEOUT_IN_SECONDS")
     Pp = table_max(tables, "PAUSE_BETWEEN_RETRIES_IN_SECONDS")
     F = table_max(tables, "PING_FREQUENCY_IN_SECONDS")
     disc = table_max(tables, "DISCOVERY_TIMEOUT_IN_SECONDS")
     R = 10
     per_op = R * (T + Pp + P_YIELD)
-    handshake = 12.0
+    handshake = 12.0 + 8 * step_pause
     return 2.0 * (5 * per_op + F + 2 * (disc + 1.0) + handshake)
 
 
@@ -322,7 +325,7 @@ async def scenario(world: WorldA) -> None:
             await asyncio.wait(pend, timeout=600)
         heal_t = world.now()
         world.log.add("healed")
-        B = recovery_bound(tables)
+        B = recovery_bound(tables, float((cfg.get("consts") or {}).get("CONNECTION_STEP_PAUSE_IN_SECONDS", 0)))
         recovered_at = None
         while world.now() - heal_t < B:
             if man.spa_state == GeckoSpaState.CONNECTED and man.facade is not None:
